@@ -146,6 +146,26 @@ pub trait DiagramRules<E: Edge, N: InnerNode<E>, T> {
     fn cofactor(tag: E::Tag, node: &N, n: usize) -> Borrowed<'_, E> {
         Self::cofactors(tag, node).nth(n).expect("out of range")
     }
+
+    /// Get the `n`-th cofactor of `edge` with respect to a level that is
+    /// skipped by `edge`, i.e., a level above the level of `edge`'s node for
+    /// which the diagram contains no node on the way to `edge`
+    ///
+    /// For most kinds of decision diagrams (e.g., BDDs), a skipped level means
+    /// that the function does not depend on the respective variable, so every
+    /// cofactor is `edge` itself. This is what the default implementation
+    /// returns. In zero-suppressed decision diagrams, however, a skipped level
+    /// means that the variable does not occur, so the "high" cofactor is the
+    /// empty set. This method is used when swapping levels during reordering.
+    #[inline]
+    fn skipped_cofactor<M: Manager<Edge = E, InnerNode = N, Terminal = T>>(
+        manager: &M,
+        edge: &E,
+        n: usize,
+    ) -> E {
+        let _ = n;
+        manager.clone_edge(edge)
+    }
 }
 
 /// Result of the attempt to create a new node
